@@ -17,11 +17,16 @@ Definition plain_varint (c : codec) : Prop :=
   match c with CBool => True | CInt b | CUint b | CFlat b => bits_ok b | _ => False end.
 Definition plain_fixed (c : codec) : Prop := match c with CF32 | CF64 => True | _ => False end.
 
+(** the protobuf repeated forms only make sense as struct fields (elsewhere
+    their elements cannot be delimited: finding D12) *)
+Definition top_ok (c : codec) : Prop :=
+  match c with CSliceProto _ | CMapProto _ _ => False | _ => True end.
+
 Fixpoint rt_ok (c : codec) {struct c} : Prop :=
   match c with
   | CBool | CF32 | CF64 | CString | CBytes | CTime _ => True
   | CInt b | CUint b | CFlat b => bits_ok b
-  | CNull c' | CPtr c' => rt_ok c'
+  | CNull c' | CPtr c' => rt_ok c' /\ top_ok c'
   | CStruct _ n fs =>
     (fix all (l : list (fld codec)) : Prop :=
        match l with
@@ -31,7 +36,8 @@ Fixpoint rt_ok (c : codec) {struct c} : Prop :=
     /\ NoDup (map (fun f => f_index f) fs) /\ NoDup (map (fun f => f_slot f) fs)
   | CSliceVar c' => plain_varint c'
   | CSliceFix c' => plain_fixed c'
-  | CSliceLen c' => rt_ok c' /\ wire c' = WTLength
+  | CSliceLen c' | CSliceProto c' => rt_ok c' /\ wire c' = WTLength /\ top_ok c'
+  | CMap kc vc | CMapProto kc vc => rt_ok kc /\ rt_ok vc /\ top_ok kc /\ top_ok vc
   | _ => False
   end.
 
@@ -54,7 +60,9 @@ Fixpoint wfv (c : codec) (v : val) {struct c} : Prop :=
        | [] => True
        | f :: r => (omit (f_codec f) (slot vs (f_slot f)) = true \/ wfv (f_codec f) (slot vs (f_slot f))) /\ all r
        end) fs
-  | (CSliceVar c' | CSliceFix c' | CSliceLen c'), VSlice l => Forall (wfv c') l
+  | (CSliceVar c' | CSliceFix c' | CSliceLen c' | CSliceProto c'), VSlice l => Forall (wfv c') l
+  | (CMap kc vc | CMapProto kc vc), VMap (Some es) =>
+    Forall (fun e => (omit kc (fst e) = true \/ wfv kc (fst e)) /\ (omit vc (snd e) = true \/ wfv vc (snd e))) es
   | _, _ => False
   end.
 
@@ -74,8 +82,52 @@ Fixpoint merge (c : codec) (prior v : val) {struct c} : val :=
                else set_nth (f_slot f) (merge (f_codec f) (slot cur (f_slot f)) fv) cur)
              fs (match prior with VStruct ps => ps | _ => struct_fields (zero c) end))
   | CSliceLen c' => VSlice (map (fun x => merge c' (zero c') x) (slice_elems v))
+  | CMap kc vc =>
+    (* entries are merged by key, in wire order: a key is decoded from zero, a
+       value into the entry the map already holds under that key *)
+    match v with
+    | VMap (Some es) =>
+      VMap (Some (fold_left (fun m e =>
+        let k' := if omit kc (fst e) then zero kc else merge kc (zero kc) (fst e) in
+        let x' := if omit vc (snd e) then zero vc
+                  else merge vc (match map_lookup k' m with Some y => y | None => zero vc end) (snd e) in
+        map_set k' x' m) es (match prior with VMap (Some m) => m | _ => [] end)))
+    | _ => v
+    end
+  | CSliceProto c' =>
+    (* the repeated form appends to what the target already holds *)
+    match v with
+    | VSlice l => VSlice (slice_elems prior ++ map (fun x => merge c' (zero c') x) l)
+    | _ => v
+    end
+  | CMapProto kc vc =>
+    (* entries merged by key as for CMap; no entry at all leaves the target alone *)
+    match v with
+    | VMap (Some (e0 :: es0)) =>
+      VMap (Some (fold_left (fun m e =>
+        let k' := if omit kc (fst e) then zero kc else merge kc (zero kc) (fst e) in
+        let x' := if omit vc (snd e) then zero vc
+                  else merge vc (match map_lookup k' m with Some y => y | None => zero vc end) (snd e) in
+        map_set k' x' m) (e0 :: es0) (match prior with VMap (Some m) => m | _ => [] end)))
+    | VMap (Some []) => prior
+    | _ => v
+    end
   | _ => v
   end.
+
+Definition entry_merge (kc vc : codec) (m : list (val * val)) (e : val * val) : list (val * val) :=
+  let k' := if omit kc (fst e) then zero kc else merge kc (zero kc) (fst e) in
+  let x' := if omit vc (snd e) then zero vc
+            else merge vc (match map_lookup k' m with Some y => y | None => zero vc end) (snd e) in
+  map_set k' x' m.
+Lemma merge_map kc vc prior es :
+  merge (CMap kc vc) prior (VMap (Some es))
+  = VMap (Some (fold_left (entry_merge kc vc) es (match prior with VMap (Some m) => m | _ => [] end))).
+Proof. reflexivity. Qed.
+Lemma merge_map_proto kc vc prior e es :
+  merge (CMapProto kc vc) prior (VMap (Some (e :: es)))
+  = VMap (Some (fold_left (entry_merge kc vc) (e :: es) (match prior with VMap (Some m) => m | _ => [] end))).
+Proof. reflexivity. Qed.
 
 (** ** fuel does not matter once it exceeds the data length *)
 Lemma struct_loop_fuel tbl : forall f1 f2 rest consumed cur,
@@ -134,14 +186,14 @@ Definition RTc (c : codec) : Prop :=
 
 (** the encoding of a tagged field, split into header and payload as the struct
     loop sees it *)
-Lemma tagged_enc_shape : forall c, rt_ok c -> forall v idx,
+Lemma tagged_enc_shape : forall c, rt_ok c -> top_ok c -> forall v idx,
   wfv c v -> fits c v ->
   let tg := field_tag c idx in
   (wire c = WTLength -> enc c v tg = tg ++ append_varuint (len (enc c v [])) ++ enc c v [] /\ len (enc c v []) < two64) /\
   (wire c <> WTLength -> enc c v tg = tg ++ enc c v []).
 Proof.
   induction c as [ |b|b|b| | | | |compat| |c IH|c IH|nm n fs IH|c IH|c IH|c IH|c IH|kc vc IHk IHv|kc vc IHk IHv| | | ]
-    using codec_ind'; intros Hok v idx Hw Hf tg; cbn [rt_ok] in Hok; try contradiction;
+    using codec_ind'; intros Hok Htop v idx Hw Hf tg; cbn [rt_ok] in Hok; cbn [top_ok] in Htop; try contradiction;
     try (split; intros Hwt; cbn [wire] in Hwt; unfold WTVarInt, WT64, WT32, WTLength, WTSlice in Hwt; try congruence; try lia; reflexivity).
   - (* CString *) split; intros Hwt; [|cbn [wire] in Hwt; congruence].
     cbn [enc frame_tag]. unfold tg, field_tag, append_tag.
@@ -160,9 +212,9 @@ Proof.
     split; [reflexivity|]. cbn [fits wfv] in *. destruct v; try contradiction.
     destruct (time_size_law compat sec nsec Hf) as [_ L]. exact L.
   - (* CNull *) cbn [wfv] in Hw. destruct v as [ | | | | | | |valid p| | | | |]; try contradiction. destruct valid; [|contradiction].
-    cbn [fits] in Hf. specialize (IH Hok p idx Hw Hf). cbn [enc wire]. unfold tg, field_tag in *. cbn [wire]. exact IH.
+    cbn [fits] in Hf. destruct Hok as [Hok Ht]. specialize (IH Hok Ht p idx Hw Hf). cbn [enc wire]. unfold tg, field_tag in *. cbn [wire]. exact IH.
   - (* CPtr *) cbn [wfv] in Hw. destruct v as [ | | | | | |[p|]| | | | | |]; try contradiction.
-    cbn [fits] in Hf. specialize (IH Hok p idx Hw Hf). cbn [enc wire]. unfold tg, field_tag in *. cbn [wire]. exact IH.
+    cbn [fits] in Hf. destruct Hok as [Hok Ht]. specialize (IH Hok Ht p idx Hw Hf). cbn [enc wire]. unfold tg, field_tag in *. cbn [wire]. exact IH.
   - (* CStruct *) split; intros Hwt; [|cbn [wire] in Hwt; congruence].
     cbn [enc frame_tag]. unfold tg, field_tag, append_tag.
     pose proof (append_varuint_length_bounds (tag_value (wire (CStruct nm n fs)) idx)) as Hb.
@@ -215,13 +267,25 @@ Lemma struct_loop_unfold tbl f rest consumed cur : rest <> [] ->
    end).
 Proof. intros H. destruct rest; [congruence|reflexivity]. Qed.
 
+(** ** set_nth facts *)
+Lemma set_nth_twice : forall l i x y, set_nth i y (set_nth i x l) = set_nth i y l.
+Proof. unfold set_nth. induction l as [|z r IH]; intros i x y; destruct i; cbn; try reflexivity. f_equal. apply IH. Qed.
+Lemma nth_set_nth_hit : forall l i x d, (i < length l)%nat -> nth i (set_nth i x l) d = x.
+Proof. unfold set_nth. induction l as [|y r IH]; intros i x d H; cbn in H; [lia|]. destruct i; cbn; [reflexivity|]. apply IH. lia. Qed.
+Lemma set_nth_ext : forall l i x y, ((i < length l)%nat -> x = y) -> set_nth i x l = set_nth i y l.
+Proof.
+  unfold set_nth. induction l as [|z r IH]; intros i x y H; destruct i; cbn; try reflexivity.
+  - f_equal. apply H. cbn. lia.
+  - f_equal. apply IH. intros Hi. apply H. cbn. lia.
+Qed.
+
 Section FieldStep.
   Variable fs : list (fld codec).
   Let tbl := map (fun f => (f_index f, f_slot f, dec (f_codec f))) fs.
   Hypothesis Hnd : NoDup (map (fun f => f_index f) fs).
 
   Lemma field_step : forall f fv cur more consumed fuel,
-    In f fs -> rt_ok (f_codec f) -> (0 <= f_index f < 2305843009213693952)%Z ->
+    In f fs -> rt_ok (f_codec f) -> top_ok (f_codec f) -> (0 <= f_index f < 2305843009213693952)%Z ->
     RTc (f_codec f) -> wfv (f_codec f) fv -> fits (f_codec f) fv ->
     let e := enc (f_codec f) fv (field_tag (f_codec f) (f_index f)) in
     (length (e ++ more) < fuel)%nat ->
@@ -229,9 +293,9 @@ Section FieldStep.
     = struct_loop tbl fuel more (consumed + len e)
         (set_nth (f_slot f) (merge (f_codec f) (slot cur (f_slot f)) fv) cur).
   Proof.
-    intros f fv cur more consumed fuel Hin Hok Hidx Hrt Hw Hf e Hfuel.
+    intros f fv cur more consumed fuel Hin Hok Htop Hidx Hrt Hw Hf e Hfuel.
     set (c := f_codec f) in *. set (tg := field_tag c (f_index f)) in *.
-    destruct (tagged_enc_shape c Hok fv (f_index f) Hw Hf) as [ShL ShS]. fold tg in ShL, ShS.
+    destruct (tagged_enc_shape c Hok Htop fv (f_index f) Hw Hf) as [ShL ShS]. fold tg in ShL, ShS.
     destruct (Hrt fv (slot cur (f_slot f)) Hw Hf) as [RtL RtS].
     pose proof (field_tag_nonempty c (f_index f)) as Htg. fold tg in Htg.
     destruct fuel as [|fuel']; [lia|].
@@ -273,6 +337,62 @@ Section FieldStep.
       + unfold e in Hfuel. rewrite Ee in Hfuel. rewrite !app_length in Hfuel. lia.
   Qed.
 
+
+  (** the protobuf repeated form: one tagged, length-prefixed frame per
+      element, each appended to what the slot already holds *)
+  Lemma field_step_proto_slice : forall f c' l cur more consumed fuel,
+    In f fs -> f_codec f = CSliceProto c' -> rt_ok c' -> top_ok c' -> wire c' = WTLength -> RTc c' ->
+    (0 <= f_index f < 2305843009213693952)%Z ->
+    Forall (fun x => wfv c' x /\ fits c' x) l ->
+    let e := flat_map (fun x => enc c' x (field_tag (CSliceProto c') (f_index f))) l in
+    (length (e ++ more) < fuel)%nat ->
+    struct_loop tbl fuel (e ++ more) consumed cur
+    = struct_loop tbl fuel more (consumed + len e)
+        (match l with
+         | [] => cur
+         | _ => set_nth (f_slot f) (VSlice (slice_elems (slot cur (f_slot f)) ++ map (merge c' (zero c')) l)) cur
+         end).
+  Proof.
+    intros f c' l. revert f c'. induction l as [|x l IH]; intros f c' cur more consumed fuel Hin Hc Hok Htop Hwt Hrt Hidx Hall e Hfuel.
+    - cbn [flat_map] in e. unfold e. cbn [app]. rewrite len_nil, N.add_0_r. reflexivity.
+    - inversion Hall as [|? ? [Hw Hf] Hall']; subst x0 l0.
+      set (tg := field_tag (CSliceProto c') (f_index f)) in *.
+      assert (Etg : tg = field_tag c' (f_index f)) by (unfold tg, field_tag; cbn [wire]; rewrite Hwt; reflexivity).
+      destruct (tagged_enc_shape c' Hok Htop x (f_index f) Hw Hf) as [ShL _]. rewrite <- Etg in ShL.
+      destruct (ShL Hwt) as [Ee Hlen].
+      destruct (Hrt x (zero c') Hw Hf) as [RtL _].
+      pose proof (field_tag_nonempty (CSliceProto c') (f_index f)) as Htg. fold tg in Htg.
+      destruct fuel as [|fuel']; [lia|].
+      unfold e. cbn [flat_map]. rewrite Ee, <- !app_assoc.
+      rewrite struct_loop_unfold.
+      2:{ intros E0. apply (f_equal (@length N)) in E0. rewrite app_length in E0. unfold len in Htg. cbn [length] in E0. lia. }
+      unfold tg at 1. rewrite read_tag_field by exact Hidx. fold tg. cbv beta iota.
+      replace (Z.of_N (len tg) <=? 0)%Z with false by (symmetry; apply Z.leb_gt; lia).
+      rewrite N2Z.id, go_drop_app. cbn [bind].
+      unfold tbl. rewrite (find_field_tbl fs f Hin Hnd). rewrite Hc.
+      unfold read_field_data. cbn [wire N.eqb WTLength Pos.eqb].
+      rewrite read_append_varuint by exact Hlen.
+      pose proof (append_varuint_length_bounds (len (enc c' x []))) as Hvb.
+      replace (Z.of_N (len (append_varuint (len (enc c' x [])))) <=? 0)%Z with false by (symmetry; apply Z.leb_gt; lia).
+      rewrite N2Z.id, go_drop_app. cbn [bind].
+      rewrite len_app.
+      replace (len (enc c' x []) + len (flat_map (fun x0 => enc c' x0 tg) l ++ more) <? len (enc c' x [])) with false
+        by (symmetry; apply N.ltb_ge; lia).
+      rewrite go_take_app. cbn [bind dec].
+      rewrite <- Hwt at 1. rewrite (RtL Hwt). cbn [bind]. rewrite go_drop_app. cbn [bind].
+      assert (Hfl : (length (flat_map (fun x0 => enc c' x0 tg) l ++ more) < fuel')%nat).
+      { unfold e in Hfuel. cbn [flat_map] in Hfuel. rewrite Ee, <- !app_assoc in Hfuel. rewrite !app_length in Hfuel.
+        rewrite app_length. unfold len in Htg. lia. }
+      rewrite (struct_loop_fuel tbl fuel' (S fuel')) by (exact Hfl || lia).
+      fold tbl.
+      rewrite (IH f c' _ more _ (S fuel') Hin Hc Hok Htop Hwt Hrt Hidx Hall') by (fold tg; lia).
+      fold tg. f_equal.
+      + rewrite !len_app. lia.
+      + destruct l as [|y l'].
+        * cbn [map app]. reflexivity.
+        * rewrite set_nth_twice. apply set_nth_ext. intros Hi.
+          unfold slot. rewrite nth_set_nth_hit by exact Hi. cbn [slice_elems map]. rewrite <- app_assoc. reflexivity.
+  Qed.
   Definition fenc (vs : list val) (f : fld codec) : bytes :=
     let fv := slot vs (f_slot f) in
     if omit (f_codec f) fv then [] else enc (f_codec f) fv (field_tag (f_codec f) (f_index f)).
@@ -281,35 +401,6 @@ Section FieldStep.
     if omit (f_codec f) fv then cur
     else set_nth (f_slot f) (merge (f_codec f) (slot cur (f_slot f)) fv) cur.
 
-  Lemma fields_loop : forall (l : list (fld codec)) vs cur more consumed fuel,
-    incl l fs ->
-    Forall (fun f => rt_ok (f_codec f) /\ (0 <= f_index f < 2305843009213693952)%Z /\ RTc (f_codec f)) l ->
-    Forall (fun f => (omit (f_codec f) (slot vs (f_slot f)) = true \/ wfv (f_codec f) (slot vs (f_slot f)))
-                     /\ fits (f_codec f) (slot vs (f_slot f))) l ->
-    (length (flat_map (fenc vs) l ++ more) < fuel)%nat ->
-    struct_loop tbl fuel (flat_map (fenc vs) l ++ more) consumed cur
-    = struct_loop tbl fuel more (consumed + len (flat_map (fenc vs) l)) (fold_left (fmerge vs) l cur).
-  Proof.
-    induction l as [|f r IH]; intros vs cur more consumed fuel Hincl Hc Hv Hfuel.
-    - cbn [flat_map app fold_left]. rewrite len_nil, N.add_0_r. reflexivity.
-    - inversion Hc as [|? ? (Hok & Hidx & Hrt) Hc']; subst.
-      inversion Hv as [|? ? (Hwo & Hfit) Hv']; subst.
-      assert (Hin : In f fs) by (apply Hincl; left; reflexivity).
-      assert (Hincl' : incl r fs) by (intros x Hx; apply Hincl; right; exact Hx).
-      cbn [flat_map fold_left]. unfold fenc at 1 3, fmerge at 2. cbv zeta.
-      destruct (omit (f_codec f) (slot vs (f_slot f))) eqn:Eo.
-      + cbn [app]. apply IH; auto.
-        cbn [flat_map] in Hfuel. unfold fenc at 1 in Hfuel. cbv zeta in Hfuel. rewrite Eo in Hfuel. exact Hfuel.
-      + destruct Hwo as [Hwo|Hw]; [congruence|].
-        rewrite <- app_assoc.
-        rewrite (field_step f (slot vs (f_slot f)) cur (flat_map (fenc vs) r ++ more) consumed fuel Hin Hok Hidx Hrt Hw Hfit).
-        * rewrite IH; auto.
-          -- rewrite len_app, N.add_assoc. reflexivity.
-          -- cbn [flat_map] in Hfuel. unfold fenc at 1 in Hfuel. cbv zeta in Hfuel. rewrite Eo in Hfuel.
-             rewrite <- app_assoc in Hfuel. rewrite app_length in Hfuel. lia.
-        * cbn [flat_map] in Hfuel. unfold fenc at 1 in Hfuel. cbv zeta in Hfuel. rewrite Eo in Hfuel.
-          rewrite <- app_assoc in Hfuel. exact Hfuel.
-  Qed.
 End FieldStep.
 
 (** ** times *)
@@ -486,6 +577,278 @@ Proof.
     rewrite !len_app. lia.
 Qed.
 
+(** ** map entries *)
+
+(** one tagged field of an entry as readTagAndLength and the field's codec see it *)
+Lemma entry_field : forall c idx v more prior site,
+  rt_ok c -> top_ok c -> RTc c -> (0 <= idx < 2305843009213693952)%Z -> wfv c v -> fits c v ->
+  let e := enc c v (field_tag c idx) in
+  exists fdata after hdr used,
+    read_tag_and_length (e ++ more) = Ok (wire c, idx, fdata, after, hdr) /\
+    dec c fdata (wire c) prior = Ok (merge c prior v, used) /\
+    go_drop site used after = Ok more /\ hdr + used = len e /\ e <> [].
+Proof.
+  intros c idx v more prior site Hok Htop Hrt Hidx Hw Hf e.
+  set (tg := field_tag c idx) in *.
+  destruct (tagged_enc_shape c Hok Htop v idx Hw Hf) as [ShL ShS]. fold tg in ShL, ShS.
+  destruct (Hrt v prior Hw Hf) as [RtL RtS].
+  pose proof (field_tag_nonempty c idx) as Htg. fold tg in Htg.
+  assert (Hne : forall p, tg ++ p <> []).
+  { intros p E0. apply (f_equal (@length N)) in E0. rewrite app_length in E0. unfold len in Htg. cbn [length] in E0. lia. }
+  assert (Hhead : forall payload, read_tag_and_length (tg ++ payload) =
+            (do (fdata, rest2, k) <- read_field_data "MapCodec.readTagAndLength data[offset:fieldEnd]" (wire c) payload;
+             Ok (wire c, idx, fdata, rest2, len tg + k))).
+  { intros payload. unfold read_tag_and_length. unfold tg at 1. rewrite read_tag_field by exact Hidx. fold tg. cbv beta iota.
+    replace (Z.of_N (len tg) <=? 0)%Z with false by (symmetry; apply Z.leb_gt; lia).
+    rewrite N2Z.id, go_drop_app. cbn [bind]. reflexivity. }
+  destruct (N.eq_dec (wire c) WTLength) as [Hwt|Hwt].
+  - destruct (ShL Hwt) as [Ee Hlen]. unfold e. rewrite Ee, <- !app_assoc, Hhead.
+    unfold read_field_data. rewrite Hwt. cbn [N.eqb WTLength Pos.eqb].
+    rewrite read_append_varuint by exact Hlen.
+    pose proof (append_varuint_length_bounds (len (enc c v []))) as Hvb.
+    replace (Z.of_N (len (append_varuint (len (enc c v [])))) <=? 0)%Z with false by (symmetry; apply Z.leb_gt; lia).
+    rewrite N2Z.id, go_drop_app. cbn [bind].
+    rewrite len_app. replace (len (enc c v []) + len more <? len (enc c v [])) with false by (symmetry; apply N.ltb_ge; lia).
+    rewrite go_take_app. cbn [bind].
+    eexists _, _, _, _. split; [reflexivity|]. split; [rewrite <- Hwt at 1; apply (RtL Hwt)|].
+    split; [apply go_drop_app|]. split; [rewrite !len_app; lia|]. apply Hne.
+  - pose proof (ShS Hwt) as Ee. unfold e. rewrite Ee, <- !app_assoc, Hhead.
+    unfold read_field_data. replace (wire c =? WTLength) with false by (symmetry; apply N.eqb_neq; exact Hwt).
+    cbn [bind].
+    eexists _, _, _, _. split; [reflexivity|]. split; [apply (RtS Hwt more)|].
+    split; [apply go_drop_app|]. split; [rewrite !len_app; lia|]. apply Hne.
+Qed.
+
+Lemma read_entry : forall kc vc e m,
+  rt_ok kc -> top_ok kc -> RTc kc -> rt_ok vc -> top_ok vc -> RTc vc ->
+  (omit kc (fst e) = true \/ wfv kc (fst e)) -> fits kc (fst e) ->
+  (omit vc (snd e) = true \/ wfv vc (snd e)) -> fits vc (snd e) ->
+  read_map_entry (dec kc) (dec vc) (zero kc) (zero vc) (entry_body kc vc e) m
+  = Ok (entry_merge kc vc m e, len (entry_body kc vc e)).
+Proof.
+  intros kc vc [k x] m Hokk Htk Hrtk Hokv Htv Hrtv Hwk Hfk Hwv Hfv. cbn [fst snd] in *.
+  unfold entry_body, entry_merge. cbn [fst snd].
+  assert (H1 : (0 <= 1 < 2305843009213693952)%Z) by lia.
+  assert (H2 : (0 <= 2 < 2305843009213693952)%Z) by lia.
+  destruct (omit kc k) eqn:Eok; destruct (omit vc x) eqn:Eov; cbn [app].
+  - (* nothing written *) reflexivity.
+  - (* value only: the key is zero *)
+    destruct Hwv as [Hwv|Hwv]; [congruence|].
+    destruct (entry_field vc 2 x [] (match map_lookup (zero kc) m with Some y => y | None => zero vc end)
+                "MapCodec.readMapEntry data[offset:]" Hokv Htv Hrtv H2 Hwv Hfv)
+      as (fdata & after & hdr & used & Hh & Hd & Hg & Hl & Hne).
+    rewrite app_nil_r in Hh.
+    unfold read_map_entry. destruct (enc vc x (field_tag vc 2)) as [|b0 r0] eqn:Ee; [congruence|]. rewrite <- Ee in *.
+    rewrite Hh. cbn [bind]. change (2 =? 1)%Z with false. cbv iota. rewrite Hd. cbn [bind]. rewrite Hl. reflexivity.
+  - (* key only: the value is zero *)
+    destruct Hwk as [Hwk|Hwk]; [congruence|].
+    destruct (entry_field kc 1 k [] (zero kc) "MapCodec.readMapEntry data[offset:]" Hokk Htk Hrtk H1 Hwk Hfk)
+      as (fdata & after & hdr & used & Hh & Hd & Hg & Hl & Hne).
+    rewrite !app_nil_r in *.
+    unfold read_map_entry. destruct (enc kc k (field_tag kc 1)) as [|b0 r0] eqn:Ee; [congruence|]. rewrite <- Ee in *.
+    rewrite Hh. cbn [bind]. change (1 =? 1)%Z with true. cbv iota. rewrite Hd. cbn [bind]. rewrite Hg. cbn [bind].
+    rewrite Hl. reflexivity.
+  - (* both *)
+    destruct Hwk as [Hwk|Hwk]; [congruence|]. destruct Hwv as [Hwv|Hwv]; [congruence|].
+    set (ev := enc vc x (field_tag vc 2)).
+    destruct (entry_field kc 1 k ev (zero kc) "MapCodec.readMapEntry data[offset:]" Hokk Htk Hrtk H1 Hwk Hfk)
+      as (fdata & after & hdr & used & Hh & Hd & Hg & Hl & Hne).
+    destruct (entry_field vc 2 x [] (match map_lookup (merge kc (zero kc) k) m with Some y => y | None => zero vc end)
+                "MapCodec.readMapEntry data[offset:]" Hokv Htv Hrtv H2 Hwv Hfv)
+      as (fdata2 & after2 & hdr2 & used2 & Hh2 & Hd2 & Hg2 & Hl2 & Hne2).
+    fold ev in Hh2, Hl2, Hne2. rewrite app_nil_r in Hh2.
+    unfold read_map_entry.
+    destruct (enc kc k (field_tag kc 1) ++ ev) as [|b0 r0] eqn:Ee.
+    { destruct (enc kc k (field_tag kc 1)); [congruence|discriminate Ee]. }
+    rewrite <- Ee in *. rewrite Hh. cbn [bind]. change (1 =? 1)%Z with true. cbv iota. rewrite Hd. cbn [bind]. rewrite Hg. cbn [bind].
+    destruct ev as [|c0 r1] eqn:Eev; [congruence|]. rewrite <- Eev in *.
+    rewrite Hh2. cbn [bind]. rewrite Hd2. cbn [bind]. rewrite len_app. f_equal. f_equal. lia.
+Qed.
+
+(** the entry loop of MapCodec.Read *)
+Lemma map_entries_list : forall kc vc,
+  rt_ok kc -> top_ok kc -> RTc kc -> rt_ok vc -> top_ok vc -> RTc vc ->
+  forall (es : list (val * val)) fuel rest consumed m,
+  Forall (fun e => (omit kc (fst e) = true \/ wfv kc (fst e)) /\ fits kc (fst e) /\
+                   (omit vc (snd e) = true \/ wfv vc (snd e)) /\ fits vc (snd e) /\
+                   len (entry_body kc vc e) < two64) es ->
+  (length es <= fuel)%nat ->
+  map_entries (dec kc) (dec vc) (zero kc) (zero vc) fuel (N.of_nat (length es))
+    (flat_map (fun e => lenframe (entry_body kc vc e)) es ++ rest) consumed m
+  = Ok (fold_left (entry_merge kc vc) es m, consumed + len (flat_map (fun e => lenframe (entry_body kc vc e)) es)).
+Proof.
+  intros kc vc Hokk Htk Hrtk Hokv Htv Hrtv. induction es as [|e es IH]; intros fuel rest consumed m Hall Hf.
+  - destruct fuel; cbn [map_entries length N.of_nat N.eqb flat_map fold_left]; rewrite len_nil, N.add_0_r; reflexivity.
+  - inversion Hall as [|? ? (Hwk & Hfk & Hwv & Hfv & Hl) Hall']; subst.
+    destruct fuel as [|f]; [cbn in Hf; lia|].
+    cbn [map_entries].
+    replace (N.of_nat (length (e :: es)) =? 0) with false by (symmetry; apply N.eqb_neq; cbn [length]; lia).
+    cbn [flat_map]. change (lenframe (entry_body kc vc e)) with (append_varuint (len (entry_body kc vc e)) ++ entry_body kc vc e).
+    rewrite <- !app_assoc. rewrite read_append_varuint by exact Hl. cbv beta iota.
+    pose proof (append_varuint_length_bounds (len (entry_body kc vc e))) as Hb.
+    replace (Z.of_N (len (append_varuint (len (entry_body kc vc e)))) <=? 0)%Z with false by (symmetry; apply Z.leb_gt; lia).
+    rewrite N2Z.id, go_drop_app. cbn [bind].
+    rewrite len_app.
+    replace (len (entry_body kc vc e) + len (flat_map (fun e0 => lenframe (entry_body kc vc e0)) es ++ rest) <? len (entry_body kc vc e))
+      with false by (symmetry; apply N.ltb_ge; lia).
+    rewrite go_take_app. cbn [bind].
+    rewrite read_entry by assumption. cbn [bind]. rewrite go_drop_app. cbn [bind].
+    replace (N.of_nat (length (e :: es)) - 1) with (N.of_nat (length es)) by (cbn [length]; lia).
+    rewrite IH by (auto; cbn [length] in Hf; lia).
+    cbn [fold_left]. f_equal. f_equal. rewrite !len_app. lia.
+Qed.
+
+(** ** a field in the struct loop, for every kind of field codec *)
+Definition stbl (fs : list (fld codec)) := map (fun f => (f_index f, f_slot f, dec (f_codec f))) fs.
+Definition entries_of (v : val) : list (val * val) := match v with VMap (Some m) => m | _ => [] end.
+
+Lemma set_nth_self : forall l i d, set_nth i (nth i l d) l = l.
+Proof. unfold set_nth. induction l as [|z r IH]; intros i d; destruct i; cbn; try reflexivity. f_equal. apply IH. Qed.
+
+Section FieldStepMap.
+  Variable fs : list (fld codec).
+  Hypothesis Hnd : NoDup (map (fun f => f_index f) fs).
+
+  Lemma field_step_proto_map : forall kc vc (es : list (val * val)) f cur more consumed fuel,
+    In f fs -> f_codec f = CMapProto kc vc ->
+    rt_ok kc -> top_ok kc -> RTc kc -> rt_ok vc -> top_ok vc -> RTc vc ->
+    (0 <= f_index f < 2305843009213693952)%Z ->
+    Forall (fun e => (omit kc (fst e) = true \/ wfv kc (fst e)) /\ fits kc (fst e) /\
+                     (omit vc (snd e) = true \/ wfv vc (snd e)) /\ fits vc (snd e) /\
+                     len (entry_body kc vc e) < two64) es ->
+    let tg := field_tag (CMapProto kc vc) (f_index f) in
+    let e := flat_map (fun en => tg ++ lenframe (entry_body kc vc en)) es in
+    (length (e ++ more) < fuel)%nat ->
+    struct_loop (stbl fs) fuel (e ++ more) consumed cur
+    = struct_loop (stbl fs) fuel more (consumed + len e)
+        (match es with
+         | [] => cur
+         | _ => set_nth (f_slot f) (VMap (Some (fold_left (entry_merge kc vc) es (entries_of (slot cur (f_slot f)))))) cur
+         end).
+  Proof.
+    intros kc vc es. induction es as [|en es IH]; intros f cur more consumed fuel Hin Hc Hokk Htk Hrtk Hokv Htv Hrtv Hidx Hall tg e Hfuel.
+    - unfold e. cbn [flat_map app]. rewrite len_nil, N.add_0_r. reflexivity.
+    - inversion Hall as [|? ? (Hwk & Hfk & Hwv & Hfv & Hl) Hall']; subst.
+      pose proof (field_tag_nonempty (CMapProto kc vc) (f_index f)) as Htg. fold tg in Htg.
+      destruct fuel as [|fuel']; [lia|].
+      unfold e. cbn [flat_map]. change (lenframe (entry_body kc vc en)) with (append_varuint (len (entry_body kc vc en)) ++ entry_body kc vc en).
+      rewrite <- !app_assoc.
+      rewrite struct_loop_unfold.
+      2:{ intros E0. apply (f_equal (@length N)) in E0. rewrite app_length in E0. unfold len in Htg. cbn [length] in E0. lia. }
+      unfold tg at 1. rewrite read_tag_field by exact Hidx. fold tg. cbv beta iota.
+      replace (Z.of_N (len tg) <=? 0)%Z with false by (symmetry; apply Z.leb_gt; lia).
+      rewrite N2Z.id, go_drop_app. cbn [bind].
+      unfold stbl. rewrite (find_field_tbl fs f Hin Hnd). rewrite Hc.
+      unfold read_field_data. cbn [wire N.eqb WTLength Pos.eqb].
+      rewrite read_append_varuint by exact Hl.
+      pose proof (append_varuint_length_bounds (len (entry_body kc vc en))) as Hvb.
+      replace (Z.of_N (len (append_varuint (len (entry_body kc vc en)))) <=? 0)%Z with false by (symmetry; apply Z.leb_gt; lia).
+      rewrite N2Z.id, go_drop_app. cbn [bind].
+      rewrite len_app.
+      replace (len (entry_body kc vc en) + len (flat_map (fun en0 => tg ++ lenframe (entry_body kc vc en0)) es ++ more) <? len (entry_body kc vc en))
+        with false by (symmetry; apply N.ltb_ge; lia).
+      rewrite go_take_app. cbn [bind dec].
+      rewrite read_entry by assumption. cbn [bind]. rewrite go_drop_app. cbn [bind].
+      assert (Hfl : (length (flat_map (fun en0 => tg ++ lenframe (entry_body kc vc en0)) es ++ more) < fuel')%nat).
+      { unfold e in Hfuel. cbn [flat_map] in Hfuel. rewrite <- !app_assoc in Hfuel. rewrite !app_length in Hfuel.
+        rewrite app_length. unfold len in Htg. lia. }
+      rewrite (struct_loop_fuel _ fuel' (S fuel')) by (exact Hfl || lia).
+      fold (stbl fs).
+      rewrite (IH f _ more _ (S fuel') Hin Hc Hokk Htk Hrtk Hokv Htv Hrtv Hidx Hall') by (fold tg; lia).
+      fold tg. f_equal.
+      + unfold lenframe. rewrite !len_app. lia.
+      + fold (entries_of (slot cur (f_slot f))).
+        destruct es as [|en2 es'].
+        * cbn [fold_left]. reflexivity.
+        * rewrite set_nth_twice. apply set_nth_ext. intros Hi.
+          unfold slot. rewrite nth_set_nth_hit by exact Hi. cbn [entries_of fold_left]. reflexivity.
+  Qed.
+End FieldStepMap.
+
+(** [FRT c]: a written (not omitted) field of codec [c] goes through the struct
+    loop of any struct having that field: the loop advances past its encoding
+    and the field's slot receives the merge *)
+Definition FRT (c : codec) : Prop :=
+  forall fs f fv cur more consumed fuel,
+    NoDup (map (fun f => f_index f) fs) -> In f fs -> f_codec f = c ->
+    (0 <= f_index f < 2305843009213693952)%Z -> wfv c fv -> fits c fv -> omit c fv = false ->
+    (length (enc c fv (field_tag c (f_index f)) ++ more) < fuel)%nat ->
+    struct_loop (stbl fs) fuel (enc c fv (field_tag c (f_index f)) ++ more) consumed cur
+    = struct_loop (stbl fs) fuel more (consumed + len (enc c fv (field_tag c (f_index f))))
+        (set_nth (f_slot f) (merge c (slot cur (f_slot f)) fv) cur).
+
+Lemma frt_of_rtc c : rt_ok c -> top_ok c -> RTc c -> FRT c.
+Proof.
+  intros Hok Htop Hrt fs f fv cur more consumed fuel Hnd Hin Hc Hidx Hw Hf _ Hfuel. subst c.
+  apply (field_step fs Hnd f fv cur more consumed fuel Hin Hok Htop Hidx Hrt Hw Hf Hfuel).
+Qed.
+
+Lemma frt_proto_slice c' : rt_ok c' -> top_ok c' -> wire c' = WTLength -> RTc c' -> FRT (CSliceProto c').
+Proof.
+  intros Hok Htop Hwt Hrt fs f fv cur more consumed fuel Hnd Hin Hc Hidx Hw Hf Ho Hfuel.
+  cbn [wfv] in Hw. destruct fv as [ | | | | | | | | |l| | |]; try contradiction.
+  cbn [fits slice_elems] in Hf. cbn [omit] in Ho. cbn [enc slice_elems] in *.
+  assert (Hall : Forall (fun x => wfv c' x /\ fits c' x) l).
+  { rewrite Forall_forall in *. intros x Hx. split; [apply Hw|apply Hf]; exact Hx. }
+  unfold stbl. rewrite (field_step_proto_slice fs Hnd f c' l cur more consumed fuel Hin Hc Hok Htop Hwt Hrt Hidx Hall Hfuel).
+  destruct l as [|x l]; [discriminate Ho|]. reflexivity.
+Qed.
+
+Lemma frt_proto_map kc vc : rt_ok kc -> top_ok kc -> RTc kc -> rt_ok vc -> top_ok vc -> RTc vc -> FRT (CMapProto kc vc).
+Proof.
+  intros Hokk Htk Hrtk Hokv Htv Hrtv fs f fv cur more consumed fuel Hnd Hin Hc Hidx Hw Hf Ho Hfuel.
+  cbn [wfv] in Hw. destruct fv as [ | | | | | | | | | |[es|]| |]; try contradiction.
+  destruct Hf as [_ Hfe]. cbn [map_entries_of] in Hfe. cbn [enc] in *.
+  change (flat_map (fun e : val * val => field_tag (CMapProto kc vc) (f_index f)
+            ++ lenframe ((if omit kc (fst e) then [] else enc kc (fst e) (field_tag kc 1))
+                         ++ (if omit vc (snd e) then [] else enc vc (snd e) (field_tag vc 2)))) es)
+    with (flat_map (fun en => field_tag (CMapProto kc vc) (f_index f) ++ lenframe (entry_body kc vc en)) es) in *.
+  assert (Hall : Forall (fun e => (omit kc (fst e) = true \/ wfv kc (fst e)) /\ fits kc (fst e) /\
+                     (omit vc (snd e) = true \/ wfv vc (snd e)) /\ fits vc (snd e) /\
+                     len (entry_body kc vc e) < two64) es).
+  { rewrite Forall_forall in *. intros e He. destruct (Hw e He) as [A B]. destruct (Hfe e He) as (C & D & E). auto. }
+  rewrite (field_step_proto_map fs Hnd kc vc es f cur more consumed fuel Hin Hc Hokk Htk Hrtk Hokv Htv Hrtv Hidx Hall Hfuel).
+  destruct es as [|e0 es0].
+  - cbn [merge]. unfold slot. rewrite set_nth_self. reflexivity.
+  - rewrite merge_map_proto. reflexivity.
+Qed.
+
+(** ** all fields of a struct *)
+Section FieldsLoop.
+  Variable fs : list (fld codec).
+  Hypothesis Hnd : NoDup (map (fun f => f_index f) fs).
+
+  Lemma fields_loop : forall (l : list (fld codec)) vs cur more consumed fuel,
+    incl l fs ->
+    Forall (fun f => (0 <= f_index f < 2305843009213693952)%Z /\ FRT (f_codec f)) l ->
+    Forall (fun f => (omit (f_codec f) (slot vs (f_slot f)) = true \/ wfv (f_codec f) (slot vs (f_slot f)))
+                     /\ fits (f_codec f) (slot vs (f_slot f))) l ->
+    (length (flat_map (fenc vs) l ++ more) < fuel)%nat ->
+    struct_loop (stbl fs) fuel (flat_map (fenc vs) l ++ more) consumed cur
+    = struct_loop (stbl fs) fuel more (consumed + len (flat_map (fenc vs) l)) (fold_left (fmerge vs) l cur).
+  Proof.
+    induction l as [|f r IH]; intros vs cur more consumed fuel Hincl Hc Hv Hfuel.
+    - cbn [flat_map app fold_left]. rewrite len_nil, N.add_0_r. reflexivity.
+    - inversion Hc as [|? ? (Hidx & Hfrt) Hc']; subst.
+      inversion Hv as [|? ? (Hwo & Hfit) Hv']; subst.
+      assert (Hin : In f fs) by (apply Hincl; left; reflexivity).
+      assert (Hincl' : incl r fs) by (intros x Hx; apply Hincl; right; exact Hx).
+      cbn [flat_map fold_left]. unfold fenc at 1 3, fmerge at 2. cbv zeta.
+      destruct (omit (f_codec f) (slot vs (f_slot f))) eqn:Eo.
+      + cbn [app]. apply IH; auto.
+        cbn [flat_map] in Hfuel. unfold fenc at 1 in Hfuel. cbv zeta in Hfuel. rewrite Eo in Hfuel. exact Hfuel.
+      + destruct Hwo as [Hwo|Hw]; [congruence|].
+        rewrite <- app_assoc.
+        rewrite (Hfrt fs f (slot vs (f_slot f)) cur (flat_map (fenc vs) r ++ more) consumed fuel Hnd Hin eq_refl Hidx Hw Hfit Eo).
+        * rewrite IH; auto.
+          -- rewrite len_app, N.add_assoc. reflexivity.
+          -- cbn [flat_map] in Hfuel. unfold fenc at 1 in Hfuel. cbv zeta in Hfuel. rewrite Eo in Hfuel.
+             rewrite <- app_assoc in Hfuel. rewrite app_length in Hfuel. lia.
+        * cbn [flat_map] in Hfuel. unfold fenc at 1 in Hfuel. cbv zeta in Hfuel. rewrite Eo in Hfuel.
+          rewrite <- app_assoc in Hfuel. exact Hfuel.
+  Qed.
+End FieldsLoop.
+
 (** ** the round-trip theorem *)
 
 Lemma rt_struct_fields nm n fs :
@@ -512,12 +875,20 @@ Proof.
   unfold lenframe at 1. rewrite !len_app. pose proof (append_varuint_length_bounds (len (h x))). lia.
 Qed.
 
-Theorem roundtrip : forall c, rt_ok c -> RTc c.
+(** both at once: [RTc] wherever the codec can stand on its own, and [FRT]
+    for every codec as a struct field *)
+Definition RTG (c : codec) : Prop := (top_ok c -> RTc c) /\ FRT c.
+
+Lemma rtg_of_rtc c : rt_ok c -> top_ok c -> RTc c -> RTG c.
+Proof. intros Hok Htop Hrt. split; [intros _; exact Hrt|apply frt_of_rtc; assumption]. Qed.
+
+Theorem roundtrip_gen : forall c, rt_ok c -> RTG c.
 Proof.
   induction c as [ |b|b|b| | | | |compat| |c IH|c IH|nm n fs IH|c IH|c IH|c IH|c IH|kc vc IHk IHv|kc vc IHk IHv| | | ]
-    using codec_ind'; intros Hok; cbn [rt_ok] in Hok; try contradiction; intros v prior Hw Hf;
-    (split; intros Hwt; [try (cbn [wire] in Hwt; unfold WTVarInt, WT64, WT32, WTLength, WTSlice in Hwt; congruence)
-                        |try (cbn [wire] in Hwt; unfold WTVarInt, WT64, WT32, WTLength, WTSlice in Hwt; congruence); intros rest]).
+    using codec_ind'; intros Hok; assert (Hok0 := Hok); cbn [rt_ok] in Hok; try contradiction;
+    try (apply rtg_of_rtc; [exact Hok0|exact I|]; intros v prior Hw Hf;
+         (split; intros Hwt; [try (cbn [wire] in Hwt; unfold WTVarInt, WT64, WT32, WTLength, WTSlice in Hwt; congruence)
+                             |try (cbn [wire] in Hwt; unfold WTVarInt, WT64, WT32, WTLength, WTSlice in Hwt; congruence); intros rest])).
   - (* CBool *) cbn [wfv] in Hw. destruct v as [bb| | | | | | | | | | | |]; try contradiction.
     cbn [enc dec app merge]. rewrite read_scalar_append by (destruct bb; unfold two64; lia).
     f_equal. f_equal. destruct bb; reflexivity.
@@ -545,19 +916,19 @@ Proof.
     cbn [enc frame_tag merge wire]. apply time_roundtrip; assumption.
   - (* CNull, length-delimited payload *)
     cbn [wfv] in Hw. destruct v as [ | | | | | | |valid p| | | | |]; try contradiction. destruct valid; [|contradiction].
-    cbn [fits] in Hf. cbn [wire] in Hwt. destruct (IH Hok p (zero c) Hw Hf) as [RL _].
+    cbn [fits] in Hf. cbn [wire] in Hwt. destruct Hok as [Hok Ht]. destruct (proj1 (IH Hok) Ht p (zero c) Hw Hf) as [RL _].
     cbn [enc dec merge wire]. rewrite (RL Hwt). reflexivity.
   - cbn [wfv] in Hw. destruct v as [ | | | | | | |valid p| | | | |]; try contradiction. destruct valid; [|contradiction].
-    cbn [fits] in Hf. cbn [wire] in Hwt. destruct (IH Hok p (zero c) Hw Hf) as [_ RS].
+    cbn [fits] in Hf. cbn [wire] in Hwt. destruct Hok as [Hok Ht]. destruct (proj1 (IH Hok) Ht p (zero c) Hw Hf) as [_ RS].
     cbn [enc dec merge wire]. rewrite (RS Hwt rest). reflexivity.
   - (* CPtr *)
     cbn [wfv] in Hw. destruct v as [ | | | | | |[p|]| | | | | |]; try contradiction.
     cbn [fits] in Hf. cbn [wire] in Hwt.
-    destruct (IH Hok p (match prior with VPtr (Some q) => q | _ => zero c end) Hw Hf) as [RL _].
+    destruct Hok as [Hok Ht]. destruct (proj1 (IH Hok) Ht p (match prior with VPtr (Some q) => q | _ => zero c end) Hw Hf) as [RL _].
     cbn [enc dec merge wire]. rewrite (RL Hwt). reflexivity.
   - cbn [wfv] in Hw. destruct v as [ | | | | | |[p|]| | | | | |]; try contradiction.
     cbn [fits] in Hf. cbn [wire] in Hwt.
-    destruct (IH Hok p (match prior with VPtr (Some q) => q | _ => zero c end) Hw Hf) as [_ RS].
+    destruct Hok as [Hok Ht]. destruct (proj1 (IH Hok) Ht p (match prior with VPtr (Some q) => q | _ => zero c end) Hw Hf) as [_ RS].
     cbn [enc dec merge wire]. rewrite (RS Hwt rest). reflexivity.
   - (* CStruct *)
     assert (Hok' : rt_ok (CStruct nm n fs)) by exact Hok.
@@ -572,16 +943,17 @@ Proof.
       with (flat_map (fenc vs) fs).
     set (body := flat_map (fenc vs) fs).
     pose proof (fields_loop fs Hnd fs vs cur [] 0 (S (length body)) (incl_refl fs)) as HL.
-    rewrite !app_nil_r in HL. fold body in HL.
+    rewrite !app_nil_r in HL. fold body in HL. unfold stbl in HL.
     rewrite HL.
     + cbn [struct_loop bind]. rewrite N.add_0_l. reflexivity.
-    + rewrite Forall_forall in *. intros f Hin. destruct (Hfs f Hin) as (A & B & _). split; [exact A|]. split; [exact B|]. apply (IH f Hin A).
+    + rewrite Forall_forall in *. intros f Hin. destruct (Hfs f Hin) as (A & B & _). split; [exact B|]. apply (proj2 (IH f Hin A)).
     + rewrite Forall_forall in *. intros f Hin. split; [apply Hwfs; exact Hin|apply Hfits; exact Hin].
     + lia.
   - (* CSliceVar *)
     destruct v as [ | | | | | | | | |l| | |]; try (cbn [wfv] in Hw; contradiction).
     cbn [wfv] in Hw. destruct Hf as [Hfe Hlen].
-    assert (Hrt : RTc c) by (apply IH; destruct c; cbn [plain_varint rt_ok] in *; auto; contradiction).
+    assert (Hrt : RTc c) by (apply (proj1 (IH ltac:(destruct c; cbn [plain_varint rt_ok] in *; auto; contradiction)));
+                             destruct c; cbn [plain_varint] in Hok; try contradiction; exact I).
     assert (Hwc : wire c <> WTLength /\ wire c = WTVarInt) by (destruct c; cbn [plain_varint] in Hok; try contradiction; split; discriminate || reflexivity).
     cbn [enc frame_tag dec merge wire slice_elems].
     assert (Eb : flat_map (fun x => enc c x []) l = flat_map append_varuint (map (pv_val c) l)).
@@ -605,7 +977,8 @@ Proof.
   - (* CSliceFix *)
     destruct v as [ | | | | | | | | |l| | |]; try (cbn [wfv] in Hw; contradiction).
     cbn [wfv] in Hw. destruct Hf as (Hfix & Hfe & Hlen).
-    assert (Hrt : RTc c) by (apply IH; destruct c; cbn [plain_fixed rt_ok] in *; auto; contradiction).
+    assert (Hrt : RTc c) by (apply (proj1 (IH ltac:(destruct c; cbn [plain_fixed rt_ok] in *; auto; contradiction)));
+                             destruct c; cbn [plain_fixed] in Hok; try contradiction; exact I).
     assert (Hwc : wire c <> WTLength) by (destruct c; cbn [plain_fixed] in Hok; try contradiction; discriminate).
     assert (Hw0 : fixed_width c <> 0) by (destruct c; cbn [plain_fixed] in Hok; try contradiction; discriminate).
     cbn [enc frame_tag dec merge wire slice_elems].
@@ -626,7 +999,7 @@ Proof.
       unfold len in *. lia.
   - (* CSliceLen: counted, each element in its own length frame *)
     destruct v as [ | | | | | | | | |l| | |]; try (cbn [wfv] in Hw; contradiction).
-    cbn [wfv] in Hw. destruct Hok as [Hokc Hwc]. destruct Hf as [Hcnt Hfe].
+    cbn [wfv] in Hw. destruct Hok as (Hokc & Hwc & Htc). destruct Hf as [Hcnt Hfe].
     cbn [enc app dec merge wire slice_elems]. cbn [N.eqb WTSlice WTLength Pos.eqb].
     rewrite <- app_assoc, read_append_varuint by exact Hcnt.
     pose proof (append_varuint_length_bounds (N.of_nat (length l))) as Hb.
@@ -639,19 +1012,54 @@ Proof.
     rewrite go_drop_app. cbn [bind]. unfold alloc_guard. rewrite len_app.
     replace (N.of_nat (length l) <=? len (flat_map (fun x => lenframe (enc c x [])) l) + len rest) with true by (symmetry; apply N.leb_le; lia).
     cbn [bind].
-    rewrite (read_framed_list c (zero c) (IH Hokc) Hwc l).
+    rewrite (read_framed_list c (zero c) (proj1 (IH Hokc) Htc) Hwc l).
     + cbn [bind rev app]. reflexivity.
     + rewrite Forall_forall in *. intros x Hx. destruct (Hfe x Hx). repeat split; auto.
     + rewrite !app_length. pose proof Hge. unfold len in *. lia.
+  - (* CSliceProto: only as a struct field *)
+    destruct Hok as (Hokc & Hwc & Htc). split; [intros []|].
+    apply frt_proto_slice; [exact Hokc|exact Htc|exact Hwc|apply (proj1 (IH Hokc) Htc)].
+  - (* CMap: counted entries, each in its own length frame *)
+    destruct v as [ | | | | | | | | | |[es|]| |]; try (cbn [wfv] in Hw; contradiction).
+    cbn [wfv] in Hw. destruct Hok as (Hokk & Hokv & Htk & Htv). destruct Hf as [Hcnt Hfe]. cbn [map_entries_of] in Hcnt, Hfe.
+    rewrite merge_map. cbn [enc app wire].
+    change (flat_map (fun e : val * val => lenframe ((if omit kc (fst e) then [] else enc kc (fst e) (field_tag kc 1))
+                                                     ++ (if omit vc (snd e) then [] else enc vc (snd e) (field_tag vc 2)))) es)
+      with (flat_map (fun e => lenframe (entry_body kc vc e)) es).
+    set (frames := flat_map (fun e => lenframe (entry_body kc vc e)) es).
+    pose proof (append_varuint_length_bounds (N.of_nat (length es))) as Hb.
+    cbn [dec].
+    destruct ((append_varuint (N.of_nat (length es)) ++ frames) ++ rest) as [|b0 r0] eqn:Ed.
+    { destruct (append_varuint (N.of_nat (length es))); [rewrite len_nil in Hb; lia|discriminate Ed]. }
+    rewrite <- Ed. rewrite <- app_assoc, read_append_varuint by exact Hcnt.
+    replace (Z.of_N (len (append_varuint (N.of_nat (length es)))) <=? 0)%Z with false by (symmetry; apply Z.leb_gt; lia).
+    rewrite N2Z.id.
+    assert (Hge : N.of_nat (length es) <= len frames) by (apply (frames_len_ge (fun e => entry_body kc vc e) es)).
+    rewrite !len_app.
+    replace (len (append_varuint (N.of_nat (length es))) + (len frames + len rest)
+             - len (append_varuint (N.of_nat (length es))) <? N.of_nat (length es)) with false by (symmetry; apply N.ltb_ge; lia).
+    rewrite go_drop_app. cbn [bind]. unfold alloc_guard. rewrite len_app.
+    replace (N.of_nat (length es) <=? len frames + len rest) with true by (symmetry; apply N.leb_le; lia).
+    cbn [bind]. unfold frames.
+    rewrite (map_entries_list kc vc Hokk Htk (proj1 (IHk Hokk) Htk) Hokv Htv (proj1 (IHv Hokv) Htv) es).
+    + cbn [bind]. reflexivity.
+    + rewrite Forall_forall in *. intros e He. destruct (Hw e He) as [A B]. destruct (Hfe e He) as (C & D & E). auto.
+    + fold frames. rewrite !app_length. unfold len in *. lia.
+  - (* CMapProto: only as a struct field *)
+    destruct Hok as (Hokk & Hokv & Htk & Htv). split; [intros []|].
+    apply frt_proto_map; [exact Hokk|exact Htk|apply (proj1 (IHk Hokk) Htk)|exact Hokv|exact Htv|apply (proj1 (IHv Hokv) Htv)].
 Qed.
+
+Theorem roundtrip : forall c, rt_ok c -> top_ok c -> RTc c.
+Proof. intros c Hok Ht. apply (proj1 (roundtrip_gen c Hok) Ht). Qed.
 
 (** ** corollaries at the Marshal / Unmarshal level *)
 
 (** Unmarshal of Marshal output into a target holding [prior] *)
-Theorem unmarshal_marshal : forall c v prior, rt_ok c -> wfv c v -> fits c v -> omit c v = false ->
+Theorem unmarshal_marshal : forall c v prior, rt_ok c -> top_ok c -> wfv c v -> fits c v -> omit c v = false ->
   dec c (if omit c v then [] else enc c v []) (wire c) prior = Ok (merge c prior v, len (enc c v [])).
 Proof.
-  intros c v prior Hok Hw Hf Ho. rewrite Ho. destruct (roundtrip c Hok v prior Hw Hf) as [RL RS].
+  intros c v prior Hok Ht Hw Hf Ho. rewrite Ho. destruct (roundtrip c Hok Ht v prior Hw Hf) as [RL RS].
   destruct (N.eq_dec (wire c) WTLength) as [E|E]; [apply RL; exact E|].
   specialize (RS E []). rewrite app_nil_r in RS. exact RS.
 Qed.
@@ -662,12 +1070,12 @@ Corollary struct_unmarshal_marshal : forall nm n fs v prior,
   dec (CStruct nm n fs) (enc (CStruct nm n fs) v []) WTLength prior
   = Ok (merge (CStruct nm n fs) prior v, len (enc (CStruct nm n fs) v [])).
 Proof.
-  intros nm n fs v prior Hok Hw Hf. apply (proj1 (roundtrip _ Hok v prior Hw Hf)). reflexivity.
+  intros nm n fs v prior Hok Hw Hf. apply (proj1 (roundtrip _ Hok I v prior Hw Hf)). reflexivity.
 Qed.
 
 (** reading a body back consumes exactly its length (C05) *)
-Corollary consumed_exact : forall c v prior, rt_ok c -> wfv c v -> fits c v -> wire c = WTLength ->
+Corollary consumed_exact : forall c v prior, rt_ok c -> top_ok c -> wfv c v -> fits c v -> wire c = WTLength ->
   exists r, dec c (enc c v []) (wire c) prior = Ok (r, len (enc c v [])).
 Proof.
-  intros c v prior Hok Hw Hf E. eexists. apply (proj1 (roundtrip c Hok v prior Hw Hf)). exact E.
+  intros c v prior Hok Ht Hw Hf E. eexists. apply (proj1 (roundtrip c Hok Ht v prior Hw Hf)). exact E.
 Qed.
